@@ -37,6 +37,24 @@ def build(engine):
 
 # --------------------------------------------------------------------------- worker pool
 class Worker:
+    counter = 0
+
+    def stderr_text(self):
+        try:
+            self.errf.flush()
+            self.errf.seek(0, 2)
+            n = self.errf.tell()
+            self.errf.seek(max(0, n - 8000))
+            t = self.errf.read().decode('utf-8', 'replace')
+        except Exception:
+            t = ''
+        try:
+            self.errf.close()
+            os.unlink(self.errpath)
+        except Exception:
+            pass
+        return t
+
     def __init__(self, engine, prop, tier, seed, start, count, time_limit):
         self.start, self.count = start, count
         self.cur = None
@@ -45,7 +63,10 @@ class Worker:
                '--start', str(start), '--step', '1', '--count', str(count)]
         if time_limit:
             cmd += ['--time-limit', '%.1f' % time_limit]
-        self.p = subprocess.Popen(cmd, stdout=subprocess.PIPE, stderr=subprocess.PIPE, bufsize=0)
+        Worker.counter += 1
+        self.errpath = '/dev/shm/verif-werr.%d.%d' % (os.getpid(), Worker.counter)
+        self.errf = open(self.errpath, 'w+b')
+        self.p = subprocess.Popen(cmd, stdout=subprocess.PIPE, stderr=self.errf, bufsize=0)
         os.set_blocking(self.p.stdout.fileno(), False)
         self.buf = b''
         self.done_clean = False
@@ -93,7 +114,7 @@ def run_pool(engine, prop, tier, seed, total, budget_s, workers, block=1500):
     next_start = 0
     active = []
     res = dict(runs=0, nontrivial=0, fps={}, tsigs=set(), viol=[], counters=collections.Counter(), samples=[],
-               sim_time=0.0, crashes=0, hangs=0, verdicts=collections.Counter())
+               sim_time=0.0, crashes=0, hangs=0, verdicts=collections.Counter(), sig_counts=collections.Counter())
     pending = []   # blocks to (re)run after a crash: (start, count)
 
     def spawn():
@@ -128,8 +149,13 @@ def run_pool(engine, prop, tier, seed, total, budget_s, workers, block=1500):
                 res['tsigs'].add(tsig)
             w.cur_done = idx
         elif line.startswith('V '):
-            _, idx, js = line.split(' ', 2)
-            res['viol'].append(json.loads(js))
+            # keep the full scenario only for the first few occurrences of each signature
+            m = re.search(r'"result":\{"verdict":"[^"]*","sig":"([^"]*)"', line)
+            sig = m.group(1) if m else None
+            res['sig_counts'][sig] += 1
+            if sig is None or res['sig_counts'][sig] <= 3:
+                _, idx, js = line.split(' ', 2)
+                res['viol'].append(json.loads(js))
         elif line.startswith('STATS '):
             st = json.loads(line[6:])
             for k, v in st['counters'].items():
@@ -178,15 +204,13 @@ def run_pool(engine, prop, tier, seed, total, budget_s, workers, block=1500):
                 active.remove(w)
                 santxt = san_log(w.p.pid)
                 cleanup_scratch(w.p.pid)
+                if w.done_clean:
+                    w.stderr_text()
                 if not w.done_clean:
                     # died inside scenario w.cur
                     idx = w.cur if w.cur is not None else w.start
                     res['crashes'] += 1
-                    errtxt = ''
-                    try:
-                        errtxt = w.p.stderr.read().decode('utf-8', 'replace')[-3000:]
-                    except Exception:
-                        pass
+                    errtxt = w.stderr_text()
                     res['viol'].append(dict(index=idx, scenario=None, crashed=True, rc=rc,
                                             result=dict(verdict='CRASH', sig=crash_sig(prop, rc, santxt + errtxt),
                                                         detail=(santxt or errtxt)[:4000], fp='')))
@@ -200,6 +224,7 @@ def run_pool(engine, prop, tier, seed, total, budget_s, workers, block=1500):
                 w.p.wait()
                 active.remove(w)
                 san_log(w.p.pid)
+                w.stderr_text()
                 cleanup_scratch(w.p.pid)
                 res['hangs'] += 1
                 res['viol'].append(dict(index=idx, scenario=None, crashed=True, rc=-9,
@@ -221,8 +246,9 @@ class Server:
         self.reruns = 0
 
     def _start(self):
+        self.errf = open('/dev/shm/verif-serve-err.%d' % os.getpid(), 'w+b')
         self.p = subprocess.Popen([os.path.join(BUILD, self.engine), 'serve'], stdin=subprocess.PIPE,
-                                  stdout=subprocess.PIPE, stderr=subprocess.DEVNULL, bufsize=0)
+                                  stdout=subprocess.PIPE, stderr=self.errf, bufsize=0)
         self.rf = self.p.stdout
         line = self._readline(20)
         if line is None or not line.startswith('READY'):
@@ -288,10 +314,21 @@ class Server:
                 cleanup_scratch(self.p.pid)
                 self.p = None
                 return dict(verdict='HANG', sig='%s:HANG:no-progress-%ds' % (prop, int(HANG_S)), fp='', detail='hang')
-            santxt = san_log(self.p.pid)
+            santxt = san_log(self.p.pid) + self._stderr_text()
             cleanup_scratch(self.p.pid)
             self.p = None
             return dict(verdict='CRASH', sig=crash_sig(prop, rc, santxt), fp='', detail=santxt[:4000])
+
+    def _stderr_text(self):
+        try:
+            self.errf.flush()
+            self.errf.seek(0)
+            t = self.errf.read().decode('utf-8', 'replace')
+            self.errf.close()
+            os.unlink(self.errf.name)
+            return t[-6000:]
+        except Exception:
+            return ''
 
     def close(self):
         if self.p and self.p.poll() is None:
@@ -302,6 +339,11 @@ class Server:
             except Exception:
                 self.p.kill()
             cleanup_scratch(self.p.pid)
+        try:
+            self.errf.close()
+            os.unlink(self.errf.name)
+        except Exception:
+            pass
 
 
 def get_path(obj, path):
@@ -347,7 +389,7 @@ def ddmin_list(items, test, budget):
     return items
 
 
-def minimise(server, prop, scenario, verdict, list_paths, time_budget=25.0, max_reruns=300):
+def minimise(server, prop, scenario, verdict, list_paths, time_budget=25.0, max_reruns=300, sig=None):
     t0 = time.time()
     budget = [max_reruns]
     cur = json.loads(json.dumps(scenario))
@@ -357,7 +399,7 @@ def minimise(server, prop, scenario, verdict, list_paths, time_budget=25.0, max_
             budget[0] = 0
             return False
         r = server.run(prop, sc)
-        return r['verdict'] == verdict
+        return r['verdict'] == verdict and (sig is None or r.get('sig') == sig)
 
     for path in list_paths:
         lst = get_path(cur, path)
@@ -416,14 +458,7 @@ def fresh_replay(engine, path):
     for l in r.stdout.split('\n'):
         if l.startswith('REPLAY '):
             return json.loads(l[7:]), r
-    santxt = san_log(r.pid) if hasattr(r, 'pid') else ''
-    # crashed in replay
-    for f in glob.glob('/dev/shm/verif-san.*'):
-        try:
-            santxt += open(f, errors='replace').read()
-            os.unlink(f)
-        except OSError:
-            pass
+    santxt = (r.stderr or '')[-6000:]
     return dict(verdict='CRASH' if r.returncode not in (0, 1) else 'UNKNOWN', sig='', fp='', detail=santxt[:3000]), r
 
 
@@ -440,7 +475,7 @@ def check(prop, tier, seed, budget_override, workers):
     log('[%s] engine=%s tier=%s seed=%d build=%.1fs count=%s budget_s=%s workers=%d' % (prop, engine, tier, seed, bt, total, budget_s, workers))
     res = run_pool(engine, prop, tier, seed, total, budget_s, workers)
     log('[%s] runs=%d nontrivial=%d distinct_traces=%d wall=%.1fs sim_time=%.1fs crashes=%d hangs=%d candidate_violations=%d' % (
-        prop, res['runs'], res['nontrivial'], len(res['tsigs']), res['wall'], res['sim_time'], res['crashes'], res['hangs'], len(res['viol'])))
+        prop, res['runs'], res['nontrivial'], len(res['tsigs']), res['wall'], res['sim_time'], res['crashes'], res['hangs'], sum(res['sig_counts'].values()) + res['crashes'] + res['hangs']))
 
     findings, fixed = load_known(prop)
     exit_code = 0
@@ -451,8 +486,10 @@ def check(prop, tier, seed, budget_override, workers):
     for v in sorted(res['viol'], key=lambda v: v['index']):
         by_sig.setdefault(v['result']['sig'], []).append(v)
     os.makedirs(os.path.join(ROOT, 'replays'), exist_ok=True)
+    def occ(sig, vs):
+        return max(len(vs), res['sig_counts'].get(sig, 0))
     for sig, vs in list(by_sig.items())[:40]:
-        log('  candidate %-90s x%d (first index %d)' % (sig[:90], len(vs), vs[0]['index']))
+        log('  candidate %-90s x%d (first index %d)' % (sig[:90], occ(sig, vs), vs[0]['index']))
     server = Server(engine)
     n_new = 0
     for sig, vs in by_sig.items():
@@ -474,14 +511,14 @@ def check(prop, tier, seed, budget_override, workers):
             harness_bad = True
             continue
         # minimise (same violation class)
-        small, reruns = minimise(server, prop, sc, verdict, cfg.get('shrink_paths', [['signals'], ['faults']]))
+        small, reruns = minimise(server, prop, sc, verdict, cfg.get('shrink_paths', [['signals'], ['faults']]), sig=r1.get('sig'))
         rs = server.run(prop, small)
         if rs['verdict'] != verdict:
             small, rs = sc, r1
         name = re.sub(r'[^A-Za-z0-9_.-]+', '_', rs['sig'] or sig)[:120]
         path = os.path.join(ROOT, 'replays', '%s.json' % name)
         rep = dict(property=prop, violation=verdict, sig=rs['sig'], detail=rs['detail'], seed=seed, tier=tier, index=v['index'],
-                   expect_fp=rs.get('fp', ''), minimise_reruns=reruns, occurrences=len(vs), scenario=small)
+                   expect_fp=rs.get('fp', ''), minimise_reruns=reruns, occurrences=occ(sig, vs), scenario=small)
         with open(path, 'w') as f:
             json.dump(rep, f, indent=1)
         # gate 2: fresh process replay
@@ -492,15 +529,15 @@ def check(prop, tier, seed, budget_override, workers):
             continue
         known = match_known(rs['sig'], findings) or known
         if known:
-            log('KNOWN-FINDING: property=%s %s [sig=%s, %d occurrence(s), replay=%s]' % (prop, known['what'], rs['sig'], len(vs), os.path.relpath(path, ROOT)))
+            log('KNOWN-FINDING: property=%s %s [sig=%s, %d occurrence(s), replay=%s]' % (prop, known['what'], rs['sig'], occ(sig, vs), os.path.relpath(path, ROOT)))
             known['seen'] = True
         else:
             n_new += 1
             log('VIOLATION property=%s replay=%s' % (prop, path))
-            log('  class=%s sig=%s occurrences=%d minimised_in=%d reruns' % (verdict, rs['sig'], len(vs), reruns))
+            log('  class=%s sig=%s occurrences=%d minimised_in=%d reruns' % (verdict, rs['sig'], occ(sig, vs), reruns))
             log('  ' + rs['detail'].replace('\n', '\n  ')[:1500])
             exit_code = 1
-        reported.append(dict(sig=rs['sig'], occurrences=len(vs), known=bool(known), replay=os.path.relpath(path, ROOT)))
+        reported.append(dict(sig=rs['sig'], occurrences=occ(sig, vs), known=bool(known), replay=os.path.relpath(path, ROOT)))
     # listed findings not hit by this run's sampling: replay their stored scenario
     for f in findings:
         if f.get('seen'):
